@@ -37,39 +37,32 @@ theorem persist_refines (j : Journal) (hinv : JInv j) (msg : Bytes) (h : Handle)
     (abs (persist j msg h dir).1, (persist j msg h dir).2) = (abs j).persist msg h dir :=
   AsyncFix.Model.Journal.persist_refines hinv msg h dir
 
-/-- Full statement of the refinement of set_seq_num (for every call). -/
-def setSeqNum_refines_full : Prop :=
-  ∀ (j : Journal) (h : Handle) (out inn : Option Int),
-    abs (setSeqNum j h out inn).1 = (abs j).setSeqNum h out inn
-
-/-- Proved part.  Excluded (explicit, decidable): `Op.HalfApplies` – the UPDATE can be bound but an
-effective next number is exactly 2⁶³, so the first or second DELETE raises OverflowError after the
-counters were changed (known finding C13-set-seq-num-overflow-half-applied; `Findings/C13.lean`
-refutes the full statement). -/
-theorem setSeqNum_refines_partial (j : Journal) (h : Handle) (out inn : Option Int)
-    (hok : (Op.setSeqNum h out inn).HalfApplies = false) :
+/-- set_seq_num: for every call (assertion failures and numbers SQLite cannot hold included – the
+call is all or nothing since fix 493a9a7) the tables change as the abstract journal does -/
+theorem setSeqNum_refines (j : Journal) (h : Handle) (out inn : Option Int) :
     abs (setSeqNum j h out inn).1 = (abs j).setSeqNum h out inn :=
-  AsyncFix.Model.Journal.setSeqNum_refines h out inn hok
+  AsyncFix.Model.Journal.setSeqNum_refines h out inn
 
-/-- Full statement: after any history the journal is the abstract journal after the same history. -/
-def refinement_full : Prop :=
-  ∀ ops : List Op, abs (applyOps {} ops) = (abs {}).applyOps ops
+/-- after any history (any calls, any arguments) the journal is the abstract journal after the same
+history -/
+theorem refinement (ops : List Op) : abs (applyOps {} ops) = (abs {}).applyOps ops :=
+  applyOps_refines jinv_empty ops
 
-/-- Proved part: every history without a half-applying `set_seq_num` (same excluded set). -/
-theorem refinement_partial (ops : List Op) (hok : ∀ op ∈ ops, op.HalfApplies = false) :
-    abs (applyOps {} ops) = (abs {}).applyOps ops :=
-  applyOps_refines jinv_empty ops hok
+/-- a `set_seq_num` that raises (assertion or OverflowError) leaves the tables unchanged -/
+theorem setSeqNum_raise_unchanged (j : Journal) (h h' : Handle) (out inn : Option Int) (k : Kind)
+    (hres : (setSeqNum j h out inn).2 = .set h' (some k)) : (setSeqNum j h out inn).1 = j := by
+  rcases setSeqNum_cases j h out inn with he | he | he | ⟨-, -, -, -, -, he⟩ <;> rw [he] at hres ⊢
+  simp at hres
 
-/-- non-vacuity: a history with two mirror-image sessions, both directions, a duplicate and a
-renumbering satisfies the hypothesis and ends in a non-trivial state -/
+/-- a history with two mirror-image sessions, both directions, a duplicate and a renumbering ends
+in a non-trivial state -/
 def exampleOps : List Op :=
   [ .createOrLoad "T" "S", .createOrLoad "S" "T",
     .persist [1, 51, 52, 61, 53, 1] ⟨1, "T", "S", 1, 1⟩ .outbound,
     .persist [1, 51, 52, 61, 53, 1] ⟨1, "T", "S", 1, 1⟩ .outbound,
     .persist [1, 51, 52, 61, 57, 1] ⟨2, "S", "T", 1, 1⟩ .inbound,
     .setSeqNum ⟨1, "T", "S", 1, 1⟩ (some 3) none ]
-example : (∀ op ∈ exampleOps, op.HalfApplies = false) ∧
-    (applyOps {} exampleOps).msgs.length = 1 ∧ (applyOps {} exampleOps).sessions.length = 2 := by
+example : (applyOps {} exampleOps).msgs.length = 1 ∧ (applyOps {} exampleOps).sessions.length = 2 := by
   decide
 
 /-! ## 3. range queries -/
@@ -249,7 +242,7 @@ theorem setSeqNum_truncates_exactly (j : Journal) (h h' : Handle) (out inn : Opt
         if (id : Int) = h.key then ((abs j).counters id).map (fun _ => (h'.nextOut - 1, h'.nextIn - 1))
         else (abs j).counters id) ∧
     (abs (setSeqNum j h out inn).1).ident = (abs j).ident := by
-  rcases setSeqNum_cases j h out inn with he | he | he | ⟨-, he⟩ | ⟨-, he⟩ | ⟨-, -, -, -, -, -, he⟩ <;>
+  rcases setSeqNum_cases j h out inn with he | he | he | ⟨-, -, -, -, -, he⟩ <;>
     rw [he] at hres ⊢ <;> simp only [Res.set.injEq, reduceCtorEq, and_false] at hres
   simp only [and_true] at hres
   subst hres
@@ -261,7 +254,7 @@ already carry the new outbound number -/
 theorem setSeqNum_assert_unchanged (j : Journal) (h h' : Handle) (out inn : Option Int)
     (hres : (setSeqNum j h out inn).2 = .set h' (some .assertion)) :
     (setSeqNum j h out inn).1 = j ∧ h'.nextIn = h.nextIn := by
-  rcases setSeqNum_cases j h out inn with he | he | he | ⟨-, he⟩ | ⟨-, he⟩ | ⟨-, -, -, -, -, -, he⟩ <;>
+  rcases setSeqNum_cases j h out inn with he | he | he | ⟨-, -, -, -, -, he⟩ <;>
     rw [he] at hres ⊢ <;> simp only [Res.set.injEq, reduceCtorEq, and_false, Option.some.injEq, and_true] at hres
   · subst hres; exact ⟨rfl, rfl⟩
   · subst hres; exact ⟨rfl, rfl⟩
